@@ -82,6 +82,10 @@ def run(prop, tier, seed, replay=None):
                             "with multiplicity, semiprimes, prime powers, negatives, each through set, set(Lf,n), factor, iffactorprime, primefactor, divisors and (sub-sampled) "
 "set with loops in {1,2,3,7,40,5000}, and (sub-sampled) with PRE-FILLED output containers (result for another m plus junk: divinto, setinto, "
                             "set1into, eratinto, writeinto; divisors also with the output list aliasing the factor list); isprimepower: every n in [-300, 70000) and p^e grids; "
+                            "Miller / test_Lehmann / Lehmann with the generator seeded and the base recomputed (millers, lehmanns): every n in [-3, 200) (thorough 600) with so many seeds that "
+                            "every base is drawn for n < 40, strong pseudoprimes / Carmichael numbers x 24 seeds, the 64-bit grid; Pollard seeded (pollards: start values recomputed, "
+                            "bounds {0,1,2,3,4,5,9,17,100,10^5}, every product of two primes of 101..199); factor / iffactorprime with explicit loops; the sieve on [-30, 6000) (thorough 30000) "
+                            "and on squares / cubes / products of primes up to 4*10^6, 2^k * odd; "
                             "distinct = distinct (operation, argument); non-trivial = argument outside {0,1}",
                        extra={"lines_per_operation": keys})
     V.finish()
